@@ -398,5 +398,6 @@ pub fn run(args: &Args) -> i32 {
     rep.assume("QUIC client random is not exercised (no QUIC client in this check)");
     l0(&rep, args);
     l1(&rep, args);
+    crate::props::h3_l2::c12_h3(&rep, args);
     rep.finish()
 }
